@@ -316,6 +316,8 @@ pub fn observe_slice(s: &dyn G) -> SliceObs {
 
 pub struct Runner {
     pub cfg: Cfg,
+    /// an older copy kept aside by Call::Snapshot
+    pub snapshot: Option<Box<dyn G>>,
     pub g: Box<dyn G>,
     pub m: Model,
     pub hist: Hist,
@@ -328,6 +330,7 @@ impl Runner {
     pub fn new(cfg: Cfg) -> Self {
         Self {
             cfg,
+            snapshot: None,
             g: new_graph(cfg.n, cfg.cap),
             m: Model::new(cfg.n, cfg.cap),
             hist: Hist::default(),
@@ -348,7 +351,7 @@ impl Runner {
             }
             Call::Put(v, _) | Call::Data(v) | Call::Kid(v, _) | Call::Kids(v) => m.present(*v),
             Call::NextId | Call::NextIdAdd => m.allocator_room() >= 1,
-            Call::Clone | Call::SaveLoad => true,
+            Call::Clone | Call::SaveLoad | Call::Snapshot | Call::RefreshSnapshot => true,
             Call::Slice(v) => m.present(*v) && m.reachable(*v).is_some_and(|r| r.len() <= 14),
             Call::Merge { h, left } => {
                 h.nodes.iter().all(|n| n.id < h.cap)
@@ -368,6 +371,20 @@ impl Runner {
                     Some(g) => m.group_size(g) < crate::model::MAX_GROUP,
                 }
             }
+        }
+    }
+
+    /// After the alive sets have diverged (only tolerated in C03/C04 runs): is the call also
+    /// inside the preconditions judged on the implementation's own keys()? Calls with a
+    /// wider footprint are not made any more.
+    pub fn valid_on_impl(&self, c: &Call) -> bool {
+        let keys = self.g.keys();
+        let has = |v: &usize| keys.contains(v);
+        match c {
+            Call::Add(_) | Call::NextId | Call::NextIdAdd => true,
+            Call::Bind { a, b, .. } => has(a) && has(b),
+            Call::Put(v, _) | Call::Data(v) | Call::Kid(v, _) | Call::Kids(v) => has(v),
+            _ => false,
         }
     }
 
@@ -415,9 +432,25 @@ impl Runner {
             h_before = crate::obs::try_observe(&*hg, crate::obs::ObsLevel::FULL).ok();
             hgraph = Some(hg);
         }
+        let mut new_snapshot: Option<Box<dyn G>> = None;
+        let mut old_snapshot = if matches!(call, Call::RefreshSnapshot) { self.snapshot.take() } else { None };
         let g = &mut self.g;
         let res = catch_unwind(AssertUnwindSafe(|| -> Ret {
             match call {
+                Call::Snapshot => {
+                    new_snapshot = Some(g.clone_box());
+                    Ret::Unit
+                }
+                Call::RefreshSnapshot => {
+                    match old_snapshot.take() {
+                        Some(mut s) => {
+                            let _ = s.clone_from_dyn(&**g);
+                            replacement = Some(s);
+                        }
+                        None => replacement = Some(g.clone_box()),
+                    }
+                    Ret::Unit
+                }
                 Call::Add(v) => {
                     g.add(*v);
                     Ret::Unit
@@ -486,6 +519,9 @@ impl Runner {
         if let Some(r) = replacement {
             self.g = r;
         }
+        if let Some(sn) = new_snapshot {
+            self.snapshot = Some(sn);
+        }
         let keys_after =
             catch_unwind(AssertUnwindSafe(|| self.g.keys())).unwrap_or_else(|_| vec![usize::MAX]);
 
@@ -541,7 +577,7 @@ impl Runner {
             }
             Call::Kid(v, l) => Exp::Kid(self.m.kid(*v, l)),
             Call::Kids(v) => Exp::Kids(self.m.get(*v).edges.clone()),
-            Call::Clone => Exp::None,
+            Call::Clone | Call::Snapshot | Call::RefreshSnapshot => Exp::None,
             Call::SaveLoad => {
                 self.m.reset_allocator();
                 self.hist.returned.clear();
